@@ -509,6 +509,8 @@ class AbsEval:
 
 
 def show(v):
+    if v is None:
+        return 'unknown'
     if v[0] == 'f':
         return '{' + ','.join(c for c in CLASSES if c in v[1]) + '}'
     if v[0] == 'i':
